@@ -323,6 +323,62 @@ func c16Matrix(c *engine.Ctx) {
 			History: []string{fmt.Sprintf("%s %s?%s Host: %s", jb.r.method, jb.path, jb.r.query, jb.host)},
 			Msg:     fmt.Sprintf("option %s, Host %q, %s %s?%s: answered %s; the path-style request %s answers %s", jb.o.name, jb.host, jb.r.method, jb.path, jb.r.query, clip(ch, 200), eff, clip(cp, 200))})
 	})
+	// hosts that fall back to path-style: a whole multipart sequence must be
+	// answered exactly as by a path-style server, the Location element included
+	matches := func(o opt, host string) bool {
+		if len(o.bases) == 0 {
+			return true
+		}
+		for _, b := range o.bases {
+			if strings.HasSuffix(host, "."+b) {
+				if l := host[:len(host)-len(b)-1]; !strings.Contains(l, ".") && l != "" {
+					return true
+				}
+			}
+		}
+		return false
+	}
+	for _, o := range opts {
+		for _, host := range hosts {
+			if matches(o, host) {
+				continue
+			}
+			hw, err := drv.NewWorld(o.cfg)
+			if err != nil {
+				engine.HarnessError("C16: %v", err)
+			}
+			pw, _ := drv.NewWorld(drv.Config{Kind: drv.Mem})
+			setup(hw)
+			setup(pw)
+			id := ""
+			steps := []struct{ name, method, query, body string }{
+				{"initiate", "POST", "uploads", ""},
+				{"upload-part", "PUT", "partNumber=1&uploadId=ID", "pp"},
+				{"complete", "POST", "uploadId=ID", "<CompleteMultipartUpload><Part><PartNumber>1</PartNumber><ETag>" + drv.ETagOf([]byte("pp")) + "</ETag></Part></CompleteMultipartUpload>"},
+			}
+			for _, st := range steps {
+				q := strings.ReplaceAll(st.query, "ID", id)
+				rh := hw.Do(drv.Req{Method: st.method, Path: "/aaa/d/x", Query: q, Body: []byte(st.body), Host: host})
+				rp := pw.Do(drv.Req{Method: st.method, Path: "/aaa/d/x", Query: q, Body: []byte(st.body), Host: host})
+				c.Add(0, 1, 1, 2)
+				ah := fmt.Sprintf("%d|%s|%s", rh.Status, rh.Header.Get("ETag"), rh.Body)
+				ap := fmt.Sprintf("%d|%s|%s", rp.Status, rp.Header.Get("ETag"), rp.Body)
+				if rh.Panic != "" || ah != ap {
+					c.Report(&engine.Violation{Sig: sig("C16", "routing", o.name, "other-host", "multipart-"+st.name, "answers-differ"), World: o.name,
+						History: []string{fmt.Sprintf("%s /aaa/d/x?%s Host: %s", st.method, q, host)},
+						Msg:     fmt.Sprintf("option %s, Host %q falls back to path-style, %s: answered %s %s; a path-style server answers %s", o.name, host, st.name, clip(ah, 300), panicOf(rh.Panic), clip(ap, 300))})
+					break
+				}
+				if st.name == "initiate" {
+					if n := rp.XML(); n != nil {
+						id = n.T("UploadId")
+					}
+				}
+			}
+			hw.Close()
+			pw.Close()
+		}
+	}
 	// slash equivalence in path-style
 	w, _ := drv.NewWorld(drv.Config{Kind: drv.Mem})
 	defer w.Close()
